@@ -109,11 +109,11 @@ XCaseOf(seed_, k_, cartl_, bigl_, purel_) ==
         cbc == IF cform = "i8" \/ (gform = "int" /\ geom = "star") THEN 0 ELSE cb0
         cbp == IF gform = "int" THEN 0 ELSE IF geom = "star" THEN cbc ELSE cb0
         cb == Max2(cbp, cbc)
-        fform == FvalForms[1 + XPick(s[6], 10)]
+        fform == IF k_ <= 2 THEN "f8" ELSE FvalForms[1 + XPick(s[6], 10)]
         ncen == IF geom = "dup" THEN 2 + XPick(s[5], 4) ELSE 1 + XPick(s[5], 6)
         cen0 == [c_ \in 1..ncen |-> [r_ \in 1..dim |-> XCoord(cbc, s[41 + 3 * c_ + r_])]]
         cen == IF geom = "dup" THEN [cen0 EXCEPT ![2] = cen0[1]] ELSE cen0
-        npts0 == IF geom = "single" THEN 1 ELSE IF geom = "empty" THEN 0 ELSE 2 + XPick(s[4], 5)
+        npts0 == IF geom = "single" THEN 1 ELSE IF geom = "empty" THEN 0 ELSE IF k_ <= 2 THEN 4 + XPick(s[4], 3) ELSE 2 + XPick(s[4], 5)
         pts0 == [x_ \in 1..npts0 |-> [r_ \in 1..dim |-> XCoord(cbp, s[17 + 3 * x_ + r_])]]
         pts == IF geom = "star" THEN StarPoints(cen[1], dim)
                ELSE IF geom = "dup" THEN [pts0 EXCEPT ![2] = pts0[1]] ELSE pts0
@@ -124,8 +124,9 @@ XCaseOf(seed_, k_, cartl_, bigl_, purel_) ==
         \* the first two cases are always rescaled: all points within 1e-11 of the centres / far away
         shift == IF intforms THEN 0 ELSE IF k_ = 1 THEN 0 - 40 ELSE IF k_ = 2 THEN 30 ELSE Shifts[1 + XPick(s[15], 7)]
     IN [dim |-> dim, geom |-> geom, cbits |-> cb, pts |-> pts, centres |-> cen,
-        wts |-> [x_ \in 1..npts |-> Q(XPick(s[63 + x_], 9) - 4, 2)],          \* halves in -2..2: zero and negative weights
-        fvals |-> [x_ \in 1..npts |-> FvalOf(fform, s[71 + x_])],
+        \* halves in -2..2: zero and negative weights; the two rescaled cases have no vanishing term (w f # 0)
+        wts |-> [x_ \in 1..npts |-> IF k_ <= 2 THEN Q(1 + XPick(s[63 + x_], 4), 2) ELSE Q(XPick(s[63 + x_], 9) - 4, 2)],
+        fvals |-> [x_ \in 1..npts |-> IF k_ <= 2 THEN Q(2 * XPick(s[71 + x_], 6) - 5, 4) ELSE FvalOf(fform, s[71 + x_])],
         fform |-> fform, cform |-> cform, gform |-> gform,
         oform |-> OrderForms[1 + XPick(s[9], 3)], callform |-> CallForms[1 + XPick(s[10], 4)],
         notype |-> XPick(s[16], 2) = 1,                                       \* Cartesian call leaves type_mom out
